@@ -1,7 +1,6 @@
 package main
 
 import (
-	"encoding/base64"
 	"encoding/json"
 	"flag"
 	"fmt"
@@ -33,19 +32,46 @@ type sim struct {
 }
 
 func newSim(name string, balA, balB, nprops int, stats map[string]int) (*sim, error) {
-	c, err := newChain(name, []string{"a", "b"}, map[string]string{"a": strconv.Itoa(balA), "b": strconv.Itoa(balB)})
+	c, err := newChain(name, []*fx.Key{key("a"), key("b")}, []string{strconv.Itoa(balA), strconv.Itoa(balB)})
 	if err != nil {
 		return nil, err
 	}
-	registerTdposStandIn(c.node.Contract)
+	if err := registerTdpos(c.node); err != nil {
+		return nil, err
+	}
 	s := &sim{c: c, nprops: nprops, names: map[string]string{}, stats: stats}
 	for _, n := range accNames {
-		s.names[fx.GetKey(n).Address] = n
+		s.names[addr(n)] = n
 	}
 	return s, nil
 }
 
-func addr(name string) string { return fx.GetKey(name).Address }
+// Concretisation of the abstract accounts: deterministic key pairs whose address starts with a lowercase
+// letter for the accounts listed in -low and with a digit / uppercase letter for the others (the first
+// byte of the address decides on which side of the end key "lock_<id>_`" of the proposal unlock scan the
+// account's lock record sorts).
+var keyOf = map[string]*fx.Key{}
+
+func chooseKeys(low map[string]bool) {
+	for _, n := range accNames {
+		for i := 0; ; i++ {
+			k := fx.GetKey(fmt.Sprintf("c19-%s-%d", n, i))
+			if (k.Address[0] >= '`') == low[n] {
+				keyOf[n] = k
+				break
+			}
+		}
+	}
+}
+
+func key(name string) *fx.Key {
+	if k, ok := keyOf[name]; ok {
+		return k
+	}
+	return fx.GetKey(name)
+}
+
+func addr(name string) string { return key(name).Address }
 
 func itoa(i int) []byte { return []byte(strconv.Itoa(i)) }
 
@@ -71,14 +97,13 @@ func proposalJSON(stop, trig, pct int, tok string) []byte {
 
 // timerCallArgs builds the argument map the timer passes to $proposal.CheckVoteResult / Trigger.
 func timerCallArgs(pid int) map[string][]byte {
-	b, _ := json.Marshal(map[string]interface{}{"proposal_id": []byte(strconv.Itoa(pid))})
-	_ = base64.StdEncoding
+	b, _ := json.Marshal(map[string]interface{}{"proposal_id": []byte(strconv.Itoa(pid))}) // []byte -> base64, like the timer's
 	return map[string][]byte{"args": b}
 }
 
 // step executes one abstract operation; returns the result class.
 func (s *sim) step(op fx.Ev) (string, error) {
-	k := fx.GetKey(op.Str("by"))
+	k := key(op.Str("by"))
 	var res string
 	var cerr, derr error
 	switch op.Str("op") {
@@ -107,10 +132,16 @@ func (s *sim) step(op fx.Ev) (string, error) {
 			m = "Trigger"
 		}
 		res, cerr, derr = s.c.call(k, propC, m, timerCallArgs(op.Int("pid")))
-	case "tvote": // $tdpos vote / nominate path: Lock(lock_type tdpos) from the $tdpos kernel contract
-		res, cerr, derr = s.c.call(k, tdpC, "voteCandidate", map[string][]byte{"amount": itoa(op.Int("amt"))})
-	case "trevoke": // $tdpos revoke path: UnLock(lock_type tdpos) from the $tdpos kernel contract
-		res, cerr, derr = s.c.call(k, tdpC, "revokeVote", map[string][]byte{"amount": itoa(op.Int("amt"))})
+	// the real TDPoS kernel contract; "height" = the ledger height whose snapshot the contract reads
+	// (the current tip, as an up-to-date client passes it)
+	case "tnom": // nominateCandidate(candidate = initiator): Lock(lock_type tdpos)
+		res, cerr, derr = s.c.call(k, tdpC, "nominateCandidate", map[string][]byte{"candidate": []byte(k.Address), "amount": itoa(op.Int("amt")), "height": itoa(s.c.height())})
+	case "trevnom": // revokeNominate(candidate = initiator): UnLock of the nomination ballot
+		res, cerr, derr = s.c.call(k, tdpC, "revokeNominate", map[string][]byte{"candidate": []byte(k.Address), "height": itoa(s.c.height())})
+	case "tvote": // voteCandidate: Lock(lock_type tdpos)
+		res, cerr, derr = s.c.call(k, tdpC, "voteCandidate", map[string][]byte{"candidate": []byte(addr(op.Str("cand"))), "amount": itoa(op.Int("amt")), "height": itoa(s.c.height())})
+	case "trevoke": // revokeVote: UnLock(lock_type tdpos)
+		res, cerr, derr = s.c.call(k, tdpC, "revokeVote", map[string][]byte{"candidate": []byte(addr(op.Str("cand"))), "amount": itoa(op.Int("amt")), "height": itoa(s.c.height())})
 	case "tick": // an empty block: only the timer transaction of that height (if any)
 		derr = s.c.mine()
 		res = "ok"
@@ -206,9 +237,17 @@ func replay(args []string) error {
 	in := fs.String("in", "", "directory of generated behaviours")
 	out := fs.String("out", "trace.ndjson", "ndjson trace to write")
 	balA := fs.Int("bal-a", 3500, "genesis quota of account a (InitBal of the spec)")
-	balB := fs.Int("bal-b", 1500, "genesis quota of account b")
+	balB := fs.Int("bal-b", 1000, "genesis quota of account b")
 	nprops := fs.Int("props", 2, "number of proposal ids projected (MaxProps of the spec)")
+	lowf := fs.String("low", "", "comma separated abstract accounts that get an address starting with a lowercase letter (LowAcc of the spec)")
 	fs.Parse(args)
+	low := map[string]bool{}
+	for _, n := range strings.Split(*lowf, ",") {
+		if n != "" {
+			low[n] = true
+		}
+	}
+	chooseKeys(low)
 	behs, err := fx.LoadBehaviours(*in)
 	if err != nil {
 		return err
